@@ -20,7 +20,7 @@ from .. import core, env, popcheck, popgen
 PROP = "C03"
 LEVEL = "exploration"
 RULE = (
-    "case = (date stratum >= 2015, valid population); for each of the ~250 scalar rules active at "
+    "case = (date stratum >= 2015 or one of the sampled strata of 2005-2014 with the screened node universe, valid population); for each of the ~250 scalar rules active at "
     "the date the raw function is evaluated row by row on the production parent columns.  "
     "A non-trivial item is a (rule, population) pair in which the rule returns values of two "
     "different Python types across rows or an int/bool literal in the first row of a "
